@@ -11,6 +11,7 @@ Line protocol of the C12 driver (fields of a token are separated by `:`; vectors
                | perm:gid:ident:grad:π                 par2fun(p)[k] = p[π k]  (flat C-order function values)
                | lin:gid:ident:grad:E:P:keeps          par2fun = E·p, fun2par = P·f (`P = none`: not implemented)
                | map:gid:ident:grad:kind:imap:π|id     MappedGeometry(base, map[, imap]); kind = aff_a_b | sq | cube
+               | mapn:gid:grad:E|id:k1+k2+…|_:nwrap    user geometry (par2fun = E·p or p, no fun2par) wrapped in nested MappedGeometry maps
       grad   := none | chs | chd | chx                 user attribute `gradient` = exact chain rule, tag rule strip/direction/wrt_par
   model     M := gen:gradkind:fstyle:A:B:C:c:arg       F(f) = A f + B f² + C f³ + c;  gradkind = none | jac | gs | gd | gw
                | linmat:A
@@ -129,6 +130,25 @@ def parseGeom (tok : String) : Option (Geom V) :=
              identityType := ident
              grad := gr.map (fun r => lift2 r (fun g x => bf2p (hmul g ((bp2f x).map k.deriv))))
              parDim := (π.map List.length).getD 0 }
+  -- a user geometry (linear `par2fun = E·p` or the identity, no `fun2par`) wrapped in zero or more elementwise
+  -- maps applied in order (the last `nwrap` of them are `MappedGeometry` wrappers, never with `imap`); `grad` (only meaningful for the
+  -- unwrapped user geometry, whose class has a `gradient` method) is the exact chain rule
+  | ["mapn", gid, grad, E, kinds, nwrap] => do
+      let gid ← gid.toNat?
+      let nwrap ← nwrap.toNat?
+      let gr ← parseGradRule grad
+      let E ← if E = "id" then some none else (parseMat E).map some
+      let ks ← if kinds = "_" then some [] else (kinds.splitOn "+").mapM parseMapKind
+      let base : V → V := match E with | some E => mulVec E | none => id
+      let baseT : V → V → V := fun g x => match E with | some E => vecMat x.length g E | none => g
+      let applyKs : V → V := fun v => ks.foldl (fun v k => v.map k.apply) v
+      let derivProd : V → V := fun v =>
+        (ks.foldl (fun (acc : V × V) k => (acc.1.map k.apply, hmul acc.2 (acc.1.map k.deriv))) (v, v.map (fun _ => 1))).2
+      some { gid := gid, p2f := fun p => applyKs (base p)
+             f2p := fun _ => if nwrap = 0 then throw .notImplemented else throw .valueError
+             identityType := false
+             grad := gr.map (fun r => lift2 r (fun g x => baseT (hmul g (derivProd (base x))) x))
+             parDim := 0 }
   | _ => none
 
 /-- `F(f) = A f + B f² + C f³ + c` and its Jacobian `A + 2 B diag f + 3 C diag f²` -/
